@@ -113,6 +113,16 @@ def parse_tagged(out, tag):
     return res
 
 
+def iter_tagged(out, tag):
+    """like parse_tagged, one value at a time and without copying the output"""
+    import io
+    pre = f'<<"{tag}", "'
+    for line in io.StringIO(out):
+        line = line.rstrip("\n")
+        if line.startswith(pre) and line.endswith('">>'):
+            yield json.loads(unescape_tla_string(line[len(pre):-3]))
+
+
 def tlc_ok(rc, out):
     return rc == 0 and "Model checking completed. No error has been found." in out
 
